@@ -42,6 +42,7 @@ def rlen(rng, big=600, lo=0, hi=None):
 
 
 MANY = 0.03
+FORCED = None
 MANY_COUNTS = (15, 16, 17, 31, 32, 33, 63, 64, 65, 100, 127, 128, 129, 255, 256, 257, 400)
 
 
@@ -52,6 +53,10 @@ def nrecords(rng):
 
 def rcount(rng, lo=0, hi=40):
     """number of entries of a list: mostly 0..3, sometimes up to hi"""
+    global FORCED
+    if FORCED is not None:           # count ladder: the next list gets exactly this many entries
+        n, FORCED = FORCED, None
+        return max(lo, n)
     r = rng.random()
     if r >= 1 - MANY:
         # loops must also be driven far: counts around the powers of two an implementation might use as a limit
@@ -1225,6 +1230,24 @@ def corruptions(case, rng, limit=None):
             out.append(Case(fam, case.op, b, [], None, sd=False))
         else:
             out.append(Case(case.fam + '/trunc', case.op, buf[:d[0]], [], None, sd=False))
+    return out
+
+
+def count_ladder(rng, families, counts=None):
+    """one case per (family, count): the first list generated for the case gets exactly `count` entries - every count an
+    implementation might use as a limit is exercised deterministically, not only when the dice say so"""
+    global FORCED
+    out = []
+    for name in families:
+        for k in (counts or MANY_COUNTS):
+            FORCED = k
+            try:
+                cs = FAMILIES[name](rng, 1)
+            finally:
+                FORCED = None
+            for c in cs:
+                c.fam = name + '/count%d' % k
+                out.append(c)
     return out
 
 
